@@ -84,6 +84,47 @@ def crowd(rng):
     return ["lifecycle rt=%s %s %s" % (rng.choice(["mt", "ct"]), ",".join(types), ";".join(ops))]
 
 
+def park_case(rng):
+    """the real LoadBalancer under the turnstile scheduler: k tasks inside wait_for_connection(), arriving before and after the
+    signal, then `deactivate()` (what Stop does) or a peer being added; in lock-step with the model"""
+    k = rng.randrange(1, 7)
+    names = ["t%d" % i for i in range(k)]
+    ops = ["lb new"]
+    early = rng.randrange(0, k + 1)
+    for t in names[:early]:
+        ops.append("task %s lbwait" % t)
+    for _ in range(rng.randrange(0, 3 * max(early, 1))):
+        if early:
+            ops.append("step %s" % rng.choice(names[:early]))
+    ops.append(rng.choice(["lb deactivate", "lb deactivate", "lb add 1"]))
+    for t in names[early:]:
+        ops.append("task %s lbwait" % t)
+    tail = [("step %s" % t) for t in names for _ in range(3)]
+    rng.shuffle(tail)
+    ops += tail
+    if rng.random() < 0.3:
+        ops.append("lb deactivate")       # Stop is processed twice per shutdown
+    ops += ["step %s" % t for t in names]
+    return ops
+
+
+def park_oracle(case, impl):
+    """once the signal has been given and a task has been polled again (twice), it is no longer parked"""
+    last = {}
+    for op, out in zip(case, impl):
+        p = op.split(" ")
+        if p[0] == "step":
+            last[p[1]] = out
+    stuck = [t for t, o in last.items() if not o.startswith("done(")]
+    if stuck:
+        return "key=parked-for-ever after the signal task(s) %s are still inside wait_for_connection(): %s" % (stuck, [last[t] for t in stuck])
+    return None
+
+
+def gen_park(rng, tier):
+    return [park_case(rng) for _ in range(150 if tier == "quick" else 6000)]
+
+
 def gen(rng, tier):
     n = 48 if tier == "quick" else 800
     return [script(rng, tier) for _ in range(n)] + [crowd(rng) for _ in range(n // 3)]
@@ -109,10 +150,14 @@ def dist(cases):
 
 
 SPEC = {
-    "components": [{"comp": "stack", "gen": gen, "label": "lifecycle", "shrink": False,
+    "components": [{"comp": "conc", "gen": gen_park, "oracle": park_oracle, "label": "parked-callers",
+                    "nontrivial": lambda c, i: any(l.startswith("done(") for l in i), "dist": lambda cs: {"cases": len(cs), "ops": sum(len(c) for c in cs)}},
+                   {"comp": "stack", "gen": gen, "label": "lifecycle", "shrink": False,
                     "nontrivial": lambda c, i: any(l == "lifecycle=ok" for l in i), "dist": dist}],
-    "search": lambda rng, tier: [("stack", gen(rng, "quick") + gen(rng, "quick"), None, False)],
-    "rule": "stack level: random histories of API calls (bind tcp/ipc/inproc, connect, connect to a dead port, a raw peer stuck in the "
+    "search": lambda rng, tier: [("conc", gen_park(rng, "quick"), park_oracle), ("stack", gen(rng, "quick") + gen(rng, "quick"), None, False)],
+    "rule": "component level: 1..6 tasks inside the real LoadBalancer::wait_for_connection() under the deterministic scheduler, arriving "
+            "before and after deactivate() / add_connection(), polled in random order, in lock-step with the model (oracle: nobody stays "
+            "parked after the signal); stack level: random histories of API calls (bind tcp/ipc/inproc, connect, connect to a dead port, a raw peer stuck in the "
             "handshake, a monitor of capacity 1 that nobody reads, send, background senders blocked at the HWM or for want of a peer, background receivers blocked in recv() (one or several per socket), set_option, monitor, close() "
             "inline / from another task / twice, handle drop, term() inline / from another task) on 2..4 sockets of one context, on "
             "current-thread and multi-thread runtimes, each ending in term(); oracles: close() returns within 15 s and term() within 25 s, "
